@@ -46,6 +46,10 @@ def check_cache(
     # keyed by the function's own parameter names: two nodes may wrap the same function
     # under different output names or with differently renamed inputs.
     identity = f"{node.definition_hash}:{','.join(node.outputs)}"
+    if isinstance(node, (RouteNode, IfElseNode)):
+        # the cached value of a gate is the chosen TARGET: gates wrapping one routing
+        # function with different (or exchanged) targets must not share an entry
+        identity += ":" + ",".join(str(t) for t in node.targets)
     cache_key = compute_cache_key(identity, node.map_inputs_to_params(inputs))
     if not cache_key:
         return "", None
